@@ -23,6 +23,7 @@ func init() {
 			{ID: "C11-R7", Doc: "a frame parameter is replaced by a frame made from another frame only where it is known to be the zero frame (the result keeps the destination's key prefix)", Run: c11r7},
 			{ID: "C11-R8", Doc: "Copy moves rows element by element only when a single row is copied (overlapping views are copied with memmove semantics)", Run: c11r8},
 			{ID: "C11-R9", Doc: "a column is bound (newData) over the whole capacity the frame records, so grown views within capacity can be read, compared and sorted", Run: c11r9},
+			{ID: "C11-R10", Doc: "comparison and hashing cover every key column (a loop over [0, prefix) plus column prefix)", Run: c11r10},
 			{ID: "C07-R6", Doc: "the decoder writes only the rows of the destination view (shared)", Run: c07r6},
 		},
 	})
